@@ -111,6 +111,9 @@ static void sink(const arr_cmplx& a) {
     }
     g_sink = s;
 }
+static arr_real x2(const arr_real& x) {   // even length copy
+    return x.size() % 2 == 0 ? x : arr_real(x | x);
+}
 static void sink(const std::vector<bool>& v) {
     g_sink = (double)std::count(v.begin(), v.end(), true);
 }
@@ -279,6 +282,39 @@ int main(int argc, char** argv) {
         CASE("detector", {n}, [=] { PreambleDetector d(C(n) + 1, 0.7); g_sink = d.frame_len(); auto r = d.process(C(d.frame_len())); d.reset(); });
         CASE("design_multirate", {n}, [=] { sink(design_multirate_fir(n, N)); sink(design_multirate_fir(N, n)); sink(design_multirate_fir(n, n)); });
         CASE("resampler_obj", {n}, [=] { FIRResampler r1(n, N), r2(N, n), r3(n, n); sink(r1.process(R(r1.decim_rate() * 3))); sink(r3.process(R(5))); g_sink = r2.delay() + r2.next_size(10) + r2.prev_size(10); });
+    }
+    // ---- non-finite sample values (NaN, +Inf, -Inf) are values of the declared element type: p = <<special, position class, n>>
+    for (int special : {1, 2, 3}) {
+        const double sp = special == 1 ? std::nan("") : (special == 2 ? HUGE_VAL : -HUGE_VAL);
+        for (int n : {N, 24, 40}) {
+            for (int pc : {0, 1, 2}) {   // first, middle, last sample
+                const int at = pc == 0 ? 0 : (pc == 1 ? n / 2 : n - 1);
+                auto X = [=](int salt = 0) { arr_real x = R(n, salt); x[at] = sp; return x; };
+                auto Z = [=](int salt = 0) { arr_cmplx z = C(n, salt); z[at].im = sp; return z; };
+                const std::vector<long> P = {special, pc, n};
+                CASE("nf_medianfilter", P, [=] { MedianFilter m(5); sink(m.process(X())); sink(m.process(R(n))); sink(m.process(R(3))); MedianFilter m2(3, sp); sink(m2.process(R(n))); });
+                CASE("nf_medfilt", P, [=] { arr_real x = X(); sink(medfilt(x, 3)); sink(medfilt(x, 5)); });
+                CASE("nf_sort", P, [=] { sink(sort(X()).first); sink(sort(X(), Direction::Descend).first); g_sink = median(X()); });
+                CASE("nf_minmax", P, [=] { g_sink = max(X()) + min(X()) + argmax(X()) + argmin(X()) + peak2peak(X()) + argmax(Z()) + argmin(Z()); });
+                CASE("nf_reduce", P, [=] { g_sink = sum(X()) + mean(X()) + stddev(X()) + rms(X()) + norm(X()) + sum(Z()).re + rms(Z()); sink(cumsum(X())); });
+                CASE("nf_findpeaks", P, [=] { auto pk = findpeaks(X(), 3); g_sink = (double)pk.pks.size(); g_sink = peakloc(X(), at, true) + peakloc(Z(), at, true); });
+                CASE("nf_fir", P, [=] { FirFilterR f1(R(4)); sink(f1.process(X())); FftFilter f2(R(6)); sink(f2.process(X())); sink(f2.process(Z())); });
+                CASE("nf_fft", P, [=] { sink(fft(Z())); sink(ifft(Z())); sink(rfft(X())); sink(fft(Z(), 47)); sink(czt(Z(), n + 2, expj(-0.1))); sink(hilbert(X())); });
+                CASE("nf_xcorr", P, [=] { sink(xcorr(X(), R(n, 1))); g_sink = finddelay(X(), R(n, 1)) + gccphat(X(), R(n, 1)).tau; });
+                CASE("nf_corr", P, [=] { g_sink = corr(X(), R(n, 1)) + corr(X(), R(n, 1), Correlation::Kendall) + corr(X(), R(n, 1), Correlation::Spearman); });
+                CASE("nf_snr", P, [=] { g_sink = snr(X()) + sinad(X()) + thd(X()).value; });
+                CASE("nf_spectrum", P, [=] { sink(welch(X(), window::hann(8), 4, 8).pxx); auto y = stft(X(), window::hann(8, false), 4, 8); g_sink = (double)y.size(); });
+                CASE("nf_awgn", P, [=] { sink(awgn(X(), 10.0)); sink(awgn(Z(), 10.0)); });
+                CASE("nf_dyn", P, [=] { Compressor c1; Limiter l1; NoiseGate g1; Agc a1(1.0, 30, 4); sink(c1.process(X()).out); sink(l1.process(X()).out); sink(g1.process(X()).out); sink(a1.process(X()).out); sink(c1.process(R(n)).out); sink(a1.process(R(n)).out); });
+                CASE("nf_resample", P, [=] { sink(resample(X(), 3, 2)); FIRDecimator d(2); sink(d.process(x2(X()))); });
+                CASE("nf_adapt", P, [=] { LmsFilterR f(3, 0.1); sink(f.process(X(), R(n, 1)).e); sink(f.process(R(n), R(n, 1)).e); RlsFilterR g(2); sink(g.process(X(), R(n, 1)).e); });
+                CASE("nf_tuner", P, [=] { Tuner t1(8, 1.0); sink(t1.process(Z())); HilbertFilter h(7, 0.05); sink(h.process(X())); DelayReal d(3); sink(d.process(X())); MAFilterR m(4); sink(m.process(X())); });
+                CASE("nf_detector", P, [=] { PreambleDetector d(C(9) + 1, 0.7); arr_cmplx z = C(d.frame_len() * 2); z[at].re = sp; auto r = d.process(z); });
+                CASE("nf_math", P, [=] { sink(abs(Z())); sink(angle(Z())); sink(exp(X())); sink(log(abs(X()) + 1)); sink(power(X(), 2)); sink(round(X())); sink(pow2db(abs(X()))); sink(expj(X())); sink(tanh(X())); });
+                CASE("nf_compare", P, [=] { sink(X() > R(n)); sink(X() == X()); sink(X()[X() > 0.0]); });
+                CASE("nf_print", P, [=] { std::ostringstream os; os << X() << Z(); g_sink = (double)os.str().size(); });
+            }
+        }
     }
     CASE("medianfilter_small", {2}, [=] { MedianFilter m(2); });
     CASE("downsample0", {0}, [=] { sink(downsample(R(5), 0)); });
